@@ -23,8 +23,19 @@ class Q(object):
 
     def _o(self, o):
         if isinstance(o, Q):
-            return o.n
+            if o.d is self.d:
+                return o.n
+            if isinstance(o.d, int) and isinstance(self.d, int) and type(o.d) is int and type(self.d) is int \
+                    and o.d == self.d:
+                return o.n
+            raise AssertionError('Q numbers of one run share their denominator')
         return o * self.d
+
+    def __truediv__(self, o):       # only ever formatted into log lines
+        return Opaque()
+
+    __rtruediv__ = __truediv__
+    __mul__ = __rmul__ = __truediv__
 
     def __le__(self, o): return self.n <= self._o(o)
     def __lt__(self, o): return self.n < self._o(o)
@@ -40,6 +51,16 @@ class Q(object):
     def __bool__(self): return self.n != 0
     def __deepcopy__(self, memo): return self
     def __copy__(self): return self
+
+
+class Opaque(object):
+    """result of arithmetic that is only formatted into a log message"""
+    def __ch_deep_realize__(self, memo): return self
+    def __format__(self, spec): return '<q>'
+    def __str__(self): return '<q>'
+    __repr__ = __str__
+    def __truediv__(self, o): return self
+    __rtruediv__ = __mul__ = __rmul__ = __add__ = __radd__ = __sub__ = __rsub__ = __truediv__
 
 
 class Clock(object):
@@ -84,3 +105,36 @@ class Ids(object):
     def uuid1(self):
         self.n += 1
         return type('U', (), {'hex': '%s%d' % (self.prefix, self.n)})
+
+
+def num(n, d=1):
+    """a number n/d: quiet rational under the solver, a real float when replaying on the real code"""
+    from pbsym import ctx
+    if ctx.REAL:
+        return float(n) / float(d)
+    return Q(n, d)
+
+
+class RandomFactory(object):
+    """model of the `Random` class name in a module: every construction returns a fresh generator that replays the
+    same draw stream from its beginning (= determinism from the seed); constructions are counted."""
+
+    def __init__(self, draws, d):
+        self.draws = draws
+        self.d = d
+        self.made = []
+
+    def __call__(self, seed=None):
+        r = Rng(self.draws, self.d)
+        r.seed = seed
+        self.made.append(r)
+        return r
+
+
+def _rng_random(self):
+    v = self.draws[self.calls] if self.calls < len(self.draws) else self.draws[-1]
+    self.calls += 1
+    return num(v, self.d)
+
+
+Rng.random = _rng_random
